@@ -225,6 +225,7 @@ class Shaper(object):
         self._class_min_iris = None
         self._class_shexer = None
         self._shape_list = None
+        self._shape_list_threshold = None
 
     def profile_graph(self, string_output=False, output_file=None, verbose=False):
         self._check_correct_output_params(string_output, output_file)
@@ -260,7 +261,7 @@ class Shaper(object):
             self._launch_instance_tracker(verbose=verbose)
         if self._profile is None:
             self._launch_class_profiler(verbose=verbose)
-        if self._shape_list is None:
+        if self._shape_list is None or self._shape_list_threshold != acceptance_threshold:
             self._launch_class_shexer(acceptance_threshold=acceptance_threshold,
                                       verbose=verbose)
         log_msg(verbose=verbose,
@@ -305,10 +306,11 @@ class Shaper(object):
         self._profile, self._class_counts, self._class_min_iris = self._class_profiler.profile_classes(verbose=verbose)
 
     def _launch_class_shexer(self, acceptance_threshold, verbose=False):
-        if self._class_shexer is None:
-            self._class_shexer = self._build_class_shexer()
+        # A new ClassShexer per run: it accumulates shapes, so it cannot be re-entered with another threshold
+        self._class_shexer = self._build_class_shexer()
         self._shape_list = self._class_shexer.shex_classes(acceptance_threshold=acceptance_threshold,
                                                            verbose=verbose)
+        self._shape_list_threshold = acceptance_threshold
 
     def _launch_instance_tracker(self, verbose=False):
         if self._instance_tracker is None:
